@@ -213,7 +213,7 @@ uint64_t vk_hash(const void *p, size_t n, uint64_t h)
 {
 	const uint8_t *b = p;
 	size_t i = 0;
-	h ^= 0xcbf29ce484222325ULL;
+	h = vk_mix(h ^ 0xcbf29ce484222325ULL) + n;
 	for (; i + 8 <= n; i += 8) { uint64_t v; memcpy(&v, b + i, 8); h = (h ^ v) * 0x100000001b3ULL; h ^= h >> 29; }
 	for (; i < n; i++) h = (h ^ b[i]) * 0x100000001b3ULL;
 	return vk_mix(h);
